@@ -289,6 +289,46 @@ pub fn run(ctx: &Ctx) {
         |i| Some(Text { bytes: nth_string(i), radix: [2u32, 16, 36, 0, 11, 9][(i % 6) as usize] }),
         check_text,
     );
+    {
+        // plain integers and short decimals whose digits sit at machine-word boundaries (a parser may take a fast
+        // path through i32 / i64 / u64 / i128 / u128): 2^k and 10^k -3..+3 for every k, with and without sign,
+        // point position and exponent
+        let mut cases = Vec::new();
+        let mut bases: Vec<num_bigint::BigInt> = Vec::new();
+        for k in [15usize, 16, 31, 32, 53, 63, 64, 127, 128, 255, 256] {
+            bases.push(num_bigint::BigInt::from(1) << k);
+        }
+        for k in [9u32, 10, 18, 19, 20, 38, 39] {
+            bases.push(num_bigint::BigInt::from(10u8).pow(k));
+        }
+        // anywhere between 2^63 and 10^19, 2^64 and 10^20, 2^127 and 10^39 (same digit count as the type's maximum)
+        for (lo, hi) in [(63usize, 19u32), (64, 20), (127, 39), (128, 39), (31, 10), (32, 10)] {
+            let l = num_bigint::BigInt::from(1) << lo;
+            let h = num_bigint::BigInt::from(10u8).pow(hi);
+            for j in 1..8 {
+                bases.push(&l + (&h - &l) * j / 8);
+            }
+        }
+        for b in &bases {
+            for d in -3i64..=3 {
+                let v = b + d;
+                let digits = v.to_string();
+                for form in 0..7 {
+                    let text = match form {
+                        0 => digits.clone(),
+                        1 => format!("-{}", digits),
+                        2 => format!("+{}", digits),
+                        3 => format!("{}.", digits),
+                        4 => format!("{}e0", digits),
+                        5 => format!("{}.{}", &digits[..digits.len() / 2], &digits[digits.len() / 2..]),
+                        _ => format!("-{}.{}e-3", &digits[..1], &digits[1..]),
+                    };
+                    cases.push(Text { bytes: text.into_bytes(), radix: 10 });
+                }
+            }
+        }
+        ctx.listed("machine-word-integers", "text", "2^k (k = 15..256) and 10^k (k = 9..39) -3..+3, and values between 2^63 and 10^19 (etc.), written plain, signed, with a point, with an exponent: all entry points must accept them digit for digit", cases, check_text);
+    }
     let max_digits = t.pick(1000usize, 4000);
     let cases = t.pick(60_000u64, 2_000_000);
     ctx.generated("grammar-numerals", "text", cases, "numerals from the grammar: digits to the tier limit, underscores, optional point, exponent families (small, scale around i64::MAX/MIN, +-2^63, 40-digit, leading zeros)", move || numeral_strategy(max_digits), check_text);
